@@ -3,6 +3,7 @@
 
 use std::collections::BTreeMap;
 use std::fmt::Write as _;
+use std::sync::atomic::{AtomicU64, Ordering};
 use std::sync::Mutex;
 
 pub fn json_str(s: &str) -> String {
@@ -95,6 +96,7 @@ pub struct Report {
 
 impl Report {
     pub fn new(property: &str, config: &str, tier: &str) -> Report {
+        start_watchdog();
         Report {
             property: property.into(),
             config: config.into(),
@@ -269,6 +271,7 @@ pub struct Fam<'a> {
 
 impl<'a> Fam<'a> {
     pub fn new(rep: &'a Report, name: &str) -> Fam<'a> {
+        set_family(name);
         Fam {
             name: name.into(),
             cases: 0,
@@ -301,6 +304,61 @@ impl<'a> Fam<'a> {
         let ex: Vec<(&str, u64)> = self.extra.iter().map(|(k, v)| (*k, *v)).collect();
         self.rep.add_family(&self.name, self.cases, self.nontrivial, self.states, self.calls, &ex);
     }
+}
+
+
+// ---------------------------------------------------------------------------------------------
+// Hang watchdog: every call into the library under test is bracketed by call_enter / call_exit
+// (harness::common::guarded). A watchdog thread ticks once a second; a worker that has been
+// inside one call for more than VERIF_HANG_SECS (default 120) seconds means the library does not
+// terminate on that input: the process prints `HANG family=<name>` and exits with status 3,
+// which the driver reports as a violation (a call normally takes well under a millisecond).
+pub const MAX_WORKERS: usize = 256;
+static TICK: AtomicU64 = AtomicU64::new(1);
+#[allow(clippy::declare_interior_mutable_const)]
+const ZERO: AtomicU64 = AtomicU64::new(0);
+static IN_CALL: [AtomicU64; MAX_WORKERS] = [ZERO; MAX_WORKERS];
+static NEXT_SLOT: AtomicU64 = AtomicU64::new(0);
+static FAMILY: Mutex<Vec<String>> = Mutex::new(Vec::new());
+static WATCHDOG: std::sync::Once = std::sync::Once::new();
+thread_local! {
+    static SLOT: usize = (NEXT_SLOT.fetch_add(1, Ordering::Relaxed) as usize) % MAX_WORKERS;
+}
+
+#[inline]
+pub fn call_enter() {
+    SLOT.with(|&s| IN_CALL[s].store(TICK.load(Ordering::Relaxed), Ordering::Relaxed));
+}
+#[inline]
+pub fn call_exit() {
+    SLOT.with(|&s| IN_CALL[s].store(0, Ordering::Relaxed));
+}
+fn set_family(name: &str) {
+    SLOT.with(|&s| {
+        let mut g = FAMILY.lock().unwrap();
+        if g.len() <= s {
+            g.resize(s + 1, String::new());
+        }
+        g[s] = name.to_string();
+    });
+}
+fn start_watchdog() {
+    WATCHDOG.call_once(|| {
+        let limit: u64 = std::env::var("VERIF_HANG_SECS").ok().and_then(|v| v.parse().ok()).unwrap_or(120);
+        std::thread::spawn(move || loop {
+            std::thread::sleep(std::time::Duration::from_secs(1));
+            let now = TICK.fetch_add(1, Ordering::Relaxed) + 1;
+            for (i, slot) in IN_CALL.iter().enumerate() {
+                let t = slot.load(Ordering::Relaxed);
+                if t != 0 && now > t && now - t > limit {
+                    let fam = FAMILY.lock().map(|g| g.get(i).cloned().unwrap_or_default()).unwrap_or_default();
+                    println!("HANG family={} secs={}", if fam.is_empty() { "?" } else { &fam }, now - t);
+                    eprintln!("HANG: a call into the library has not returned for {} s (family {})", now - t, fam);
+                    std::process::exit(3);
+                }
+            }
+        });
+    });
 }
 
 /// Common CLI of explorer binaries.
